@@ -278,7 +278,23 @@ Definition model_prog_sel (sid : Z) (txt : block) : list instr :=
   if fix1_applied then model_prog_fixed sid txt else model_prog sid txt.
 (* the registered sites (harness/props/c20.py:SITES); the generated table must list exactly these *)
 Definition site_ids : list Z :=
-  [1; 2; 3; 4; 5; 6; 7; 8; 9; 10; 11; 12; 13; 14; 15; 16; 17; 18; 19; 20; 21; 22; 23; 24; 25; 26; 27; 28; 29; 30; 32; 33]%Z.
+  [1; 2; 3; 4; 5; 6; 7; 8; 9; 10; 11; 12; 13; 14; 15; 16; 17; 18; 19; 20; 21; 22; 23; 24; 25; 26; 27; 28; 29; 30; 32; 33;
+   34; 35; 36; 37; 38; 39; 40; 41; 42; 43; 44; 45; 46; 47; 48; 49; 50; 51; 52; 53; 54]%Z.
+(* round 6: the sites outside the anchored files (package-wide write gate, harness/props/c20.py:write_gate) *)
+Definition round6_site_ids : list Z :=
+  [34; 35; 36; 37; 38; 39; 40; 41; 42; 43; 44; 45; 46; 47; 48; 49; 50; 51; 52; 53; 54]%Z.
+
+(* ---------------------------------------------------------------- chains of calls (round 6) *)
+(* returning to the caller: the callee's local objects are dropped, the caller keeps its np argument objects (which
+   the callee may have rebound: a view-shaped ragged argument that flattened itself) over the store as it is now *)
+Definition ret (np : nat) (s : state) : state :=
+  {| s_blocks := s_blocks s; s_regs := firstn np (s_regs s) |}.
+(* a sequence of calls on the same argument objects, each one starting from the state the previous one left *)
+Fixpoint run_calls (np : nat) (ps : list (list instr)) (s : state) : state :=
+  match ps with
+  | [] => s
+  | p :: t => run_calls np t (ret np (run p s))
+  end.
 
 (* decidable equality of programs (the harness's extraction against the generated one) *)
 Definition nat_list_eqb := list_eqb Nat.eqb.
